@@ -65,6 +65,8 @@ class P(Prop):
         ("TracklibVerif.Props.C19Layout", "TV.C19.add_collection_by_name", "addCollectionToRaster depends on the tracks only through their positions and their values BY NAME for the features of the bands (any scalar type, floats included; any raster state, failing calls included)"),
         ("TracklibVerif.Props.C19Layout", "TV.C19.track_layout_sound", "a track whose features are built by ANY script of createAnalyticalFeature / removeAnalyticalFeature / setObsAnalyticalFeature calls on the concrete table (dictionary of ranks + Obs.features): what is read through the ranks is the table's content by name after the same script; one value per observation for every feature; no name twice"),
         ("TracklibVerif.Props.C19Layout", "TV.C19.add_collection_layout_independent", "two collections whose tracks were built by different scripts (creation order, extra / temporary / re-created features) with the same content by name are scattered alike: same raster state, same outcome"),
+        ("TracklibVerif.Props.C19", "TV.C19.computed_bands_persist", "computeAggregates is the only call that writes into a band: after ANY other calls on a raster in any state (setNoDataValue with any value, any number of times; addAFMap; addCollectionToRaster; failing calls included) the geometry is the same, every band of before is still there, in place, with the very grid it held, the bands added since have new names, getAFMap(name) returns what it returned"),
+        ("TracklibVerif.Props.C19", "TV.C19.session_spec_after_setters", "session_spec read later: after its computeAggregates, then any calls other than computeAggregates (setNoDataValue to 0 / a count / a value a cell really holds, several times in a row; addAFMap), EVERY band it wrote still holds its operator over exactly the located values of T; a cell without value: 0 for count / sum, otherwise the no-data value the raster had AT that computeAggregates, not the current one"),
         ("TracklibVerif.Props.C19", "TV.C19.compute_failing_bands", "a failing computeAggregates: the bands before the first band that raises are rewritten, that band and the following ones are exactly as they were, nothing else of the raster changes"),
     ]
     partial = []
@@ -80,7 +82,7 @@ class P(Prop):
                 "the bands (AFMap.__init__ name / grid checks, addAFMap with and without grid, getNamesOfAFMap order), collectionValuesGrid (absent before the first collection), "
                 "addCollectionToRaster (features = band names up to '#', the dictionary REPLACED, AnalyticalFeatureError test after the replacement, scatter loop "
                 "track x feature x observation with Python list indexing, TypeError on an observation outside the grid leaving the partial scatter), computeAggregates (bands in "
-                "insertion order, IndexError / AttributeError / KeyError / NameError at the first cell of a band, NaN -> the raster's current no-data value, None included — fix 279f7b2), get/setNoDataValue; "
+                "insertion order, IndexError / AttributeError / KeyError / NameError at the first cell of a band, NaN -> the raster's current no-data value, None included — fix 279f7b2), get/setNoDataValue (the setter stores the value and touches no band), getAFMap(name) (getBand); "
                 "algo/summarising.py summarize (argument checks, bounding box, one addAFMap per (feature, operator) in call order via AFMap.getMeasureName, add, compute); "
                 "core/track.py hasAnalyticalFeature / getObsAnalyticalFeature for uid, x, y, idx and the track's own features, read through the track's OWN dictionary of ranks: "
                 "the feature table of a track (Model/RasterLayout.lean on the table model of C01, Model/Features.lean: __analyticalFeaturesDico + Obs.features, createAnalyticalFeature(name, list), "
@@ -99,6 +101,8 @@ class P(Prop):
             "(extent of zero width / height: one column / one row); "
             "every sequence of 1..5 calls from {addAFMap(v#co_count), addCollectionToRaster(c0), addCollectionToRaster(c1), computeAggregates} on ONE raster "
             "(thorough: 1..6 calls, addAFMap(w#co_median) too); "
+            "every sequence of 1..3 calls from {setNoDataValue(0), setNoDataValue(1), setNoDataValue(-99999.0), setNoDataValue(None), computeAggregates} on a raster whose bands "
+            "(v#co_count, v#co_min, w#co_sum, w#co_avg; cells holding genuine 0, 1, -1, -99999.0) have just been computed, constructor novalue in {default, 0, 1, None}; "
             "random: 1..3 tracks on a half-integer lattice (cell borders, outer border, corners; 1 in 4 collections lies on one vertical or horizontal line or at a single position), square and non-square resolutions, margins 0/0.125/0.25/0.5 at Rat "
             "and 0.05/0.1/0.3 at Float, random float coordinates at Float (1 in 6 on one line / at one position); two features v, w with NaN plus uid; "
             "ONE summarize call per case with several (feature, operator) pairs in a generated order (all six operators on v shuffled, or 2..4 operators on v "
@@ -107,10 +111,14 @@ class P(Prop):
             "SESSIONS on one Raster object (Rat lattice and Float): 2..3 collections over one study area (tracks with 0..5 observations, a track may lack w), the raster built on an explicit "
             "box / on collection 0's bounding box / returned by summarize() / on a box too small; templates reuse (bands, then add+compute for 2..3 collections), summ-reuse (another "
             "collection scattered on the raster summarize returned), late-band (bands added after a pass, for scattered and for new features), change (feature values rewritten between add and "
-            "compute and before a second add), two-rasters (two rasters from the SAME Bbox object), nodata (Raster(novalue=x | None), setNoDataValue before the bands / between add and compute / between two computes; 1 in 4 of the other sessions has its own novalue too), errors (compute before add, names taken / empty / without '#' / unknown operator, explicit "
+            "compute and before a second add), two-rasters (two rasters from the SAME Bbox object), nodata (Raster(novalue=x | None), setNoDataValue before the bands / between add and compute / between two computes; 1 in 4 of the other sessions has its own novalue too), remark (the no-data value changed AFTER computeAggregates / on the raster summarize() returned: 1..3 setNoDataValue calls in a row, then possibly addAFMap + setNoDataValue, "
+            "another computeAggregates + setNoDataValue, another collection; the constructor's novalue and the new values drawn from markers that COLLIDE with genuine aggregates: 0 (count / sum of every cell "
+            "without value), 1, 2, -1, values the feature takes, their sum, the uid, the default marker, None), errors (compute before add, names taken / empty / without '#' / unknown operator, explicit "
             "grids of right and wrong shape, observations outside), soup (3..9 random calls incl. summarize in scalar / callable / duplicated / ragged / empty argument forms, features x, y, idx); "
             "after every call the whole object state (geometry, no-data, every band, collectionValuesGrid) is compared with the model (the bands as a set of named grids: their order is not part of the property); the oracle checks, after every well-formed "
             "addCollectionToRaster, the footprint of every observation's cell and the values kept per cell, and after every computeAggregates EVERY band against the collection scattered LAST; "
+            "after every setNoDataValue / addAFMap that follows a validated computeAggregates or summarize the bands it wrote are read AGAIN: a cell with values holds its aggregate, a cell without "
+            "holds 0 for count / sum and, otherwise, the marker of the call that wrote the band or the raster's current one (the statement says 'the no-data value': both are accepted), counts still sum to the number of non-NaN values; "
             "FEATURE LAYOUTS: the rank of a feature in Obs.features is per track; half of the generated collections (summarize cases of every stream and sessions) give every track its own "
             "layout script — the features created in another order, an extra feature 'aux' created before / between them and kept, a temporary feature removed after others were created (their ranks move down), "
             "a feature removed and created again (now the last one) — so that the summarised feature has different ranks on the tracks of one collection (about 1 collection in 4); filler values of the extra "
@@ -155,6 +163,8 @@ class P(Prop):
                 "a feature removed and created again), as one summarize call and as addAFMap* / addCollectionToRaster / computeAggregates on one raster" % len(LAYOUTS),
                 "one summarize call with every ordered pair (30) and every ordered triple (120) of distinct operators on the same feature, fixed collection with NaN-free, mixed and all-NaN cells",
                 "every ordered pair (36, including the same operator twice) of cell operators called in sequence on one list, for 6 fixed lists",
+                "every sequence of 1..3 calls from {setNoDataValue(0), setNoDataValue(1), setNoDataValue(-99999.0), setNoDataValue(None), computeAggregates} after "
+                "addAFMap x 4, addCollectionToRaster, computeAggregates on a raster built with novalue default / 0 / 1 / None (620 sessions), the bands read again after every call",
                 "every sequence of 1..%d calls from {addAFMap(v#co_count), %saddCollectionToRaster(c0), addCollectionToRaster(c1), computeAggregates} on one raster over [0,2]^2 with unit cells (%d sessions), "
                 "the whole object state compared after every call" % ((5, "", 1364) if tier == "quick" else (6, "addAFMap(w#co_median), ", 19530))]
 
